@@ -343,6 +343,8 @@ func (p *P) Run(src *tape.Source, trace bool) *core.Result {
 		switch rep.Class {
 		case racelog.Library:
 			r.Fail("race-free", rep.Sig, fmt.Sprintf("data race on library state %s:\n%s", ctx, rep.Text))
+		case racelog.Callers:
+			r.Fail("race-free", rep.Sig, "two callers race on the same memory: the library handed one object to two holders:\n"+rep.Text)
 		case racelog.Mixed:
 			r.Fail("race-free", rep.Sig, fmt.Sprintf("data race between library code and a caller-held value %s:\n%s", ctx, rep.Text))
 		default:
